@@ -595,6 +595,31 @@ pub fn c28(rep: &mut Report, scratch: &std::path::Path, rng: &mut Rng, corpora: 
                     }
                     Err(e) => { w.violation(&format!("C28:battery-error:{how}"), e); break; }
                 }
+                // a put on the reopened / doctored file that is searched before its commit: whatever frame a hit names must itself
+                // contain the (unique) word - the instant index works with provisional ids that a rebuilt index must not confuse
+                if how.starts_with("doctored") { // private copies: the put does not disturb the other comparisons
+                    let mut o = memvid_core::PutOptions::default();
+                    o.instant_index = true;
+                    o.extract_triplets = false;
+                    o.timestamp = Some(1_700_009_000);
+                    o.uri = Some("mv2://docs/AfterReopen".to_string());
+                    if m.put_bytes_with_options(b"qzlatevq arrives after the file was reopened", o).is_ok() {
+                        let mut r = request("qzlatevq", 10);
+                        r.no_sketch = true;
+                        let searched = m.search(r);
+                        w.rep.count(if searched.is_ok() { "pre_commit_searches_on_doctored_copies[answered]" } else { "pre_commit_searches_on_doctored_copies[refused]" });
+                        if let Ok(resp) = searched {
+                            for h in &resp.hits {
+                                let text = m.frame_by_id(h.frame_id).ok().map(|f| searchable_text(&mut m, &f)).unwrap_or_default();
+                                if !text.contains("qzlatevq") {
+                                    w.violation(&format!("C28:pre-commit-hit-names-wrong-frame:{how}"), format!("on the {how} file, a put searched before its commit: query 'qzlatevq' returned frame {} whose text does not contain the word", h.frame_id));
+                                    break;
+                                }
+                            }
+                        }
+                    }
+                    if w.failed { break; }
+                }
                 drop(m);
                 if how.starts_with("doctored") { let _ = std::fs::remove_file(&target); }
             }
